@@ -73,6 +73,43 @@ Fixpoint rand_k_loop (fuel : nat) (e : ent) : option (Z * ent) :=
    for [None] (lemma rand_k_fuel in the proofs) *)
 Definition rand_k (e : ent) : option (Z * ent) := rand_k_loop (S (length e)) e.
 
+(* ---------------- Montgomery's trick, as coded in sm2_fast_sign_pre_compute (N = 32) and
+   sm2_encrypt_pre_compute (N = 8): one inversion for the Z coordinates of N Jacobian points.
+     f[0] = Z[0];  f[i] = f[i-1] * Z[i]                       (prefix products)
+     F    = (f[N-1])^-1                                        (the only inversion)
+     g[N-1] = Z[N-1];  g[i] = g[i+1] * Z[i]  for i = N-2 .. 1  (suffix products; g[0] never read)
+     Zinv[0] = g[1] * F;  Zinv[i] = (g[i+1] * f[i-1]) * F;  Zinv[N-1] = f[N-2] * F
+   Multiplications are modulo [m] (the Montgomery domain of the C code is abstracted). ---------------- *)
+Section BatchInv.
+  Variable m : Z.
+  Definition mulm (a b : Z) : Z := (a * b) mod m.
+  Fixpoint prefs (acc : Z) (zs : list Z) : list Z :=
+    match zs with
+    | [] => []
+    | z :: r => let a := mulm acc z in a :: prefs a r
+    end.
+  Definition f_list (zs : list Z) : list Z :=
+    match zs with [] => [] | z0 :: r => z0 :: prefs z0 r end.
+  Fixpoint g_list (zs : list Z) : list Z :=
+    match zs with
+    | [] => []
+    | z :: r => match r with
+                | [] => [z]
+                | _ => let s := g_list r in mulm (hd 0 s) z :: s
+                end
+    end.
+  Definition batch_slot (f g : list Z) (F : Z) (N i : nat) : Z :=
+    if Nat.eqb i 0 then mulm (nth 1 g 0) F
+    else if Nat.eqb i (N - 1) then mulm (nth (N - 2) f 0) F
+    else mulm (mulm (nth (i + 1) g 0) (nth (i - 1) f 0)) F.
+  Definition batch_inv (inv : Z -> Z) (zs : list Z) : list Z :=
+    let N := length zs in
+    let f := f_list zs in
+    let g := g_list zs in
+    let F := inv (nth (N - 1) f 0) in
+    map (batch_slot f g F N) (seq 0 N).
+End BatchInv.
+
 (* result of sm2_compute_z: the digest, or an out-of-bounds read of the id buffer *)
 Inductive zres := ZOk (z : list N) | ZFault.
 (* result of the init functions: ok / error return / out-of-bounds read *)
@@ -166,6 +203,30 @@ Section Sign.
      correspondence run 30 times slower for no change in the values) *)
   Definition pre_entry (k : Z) : Z * Z := (k, red_n (x1_of k)).
   Definition pre_compute (en : ent) : option (list Z * ent) := draw_ks 32 en.
+
+  (* sm2_fast_sign_pre_compute exactly as coded (eager, with the shared inversion).  [zs] are the
+     Jacobian Z coordinates that sm2_z256_point_mul_generator happens to produce for the 32 points
+     (not observable; lemma fast_pre_compute_eq shows the result does not depend on them):
+     point i is represented as (x z^2, y z^3, z); the point at infinity as (1, 1, 0). *)
+  Definition inv_p (x : Z) : Z := ntoZ NO (modinv NO (Sp NO) (nofZ NO x)).
+  Definition jac_X (P : pt) (z : Z) : Z :=
+    match P with None => 1 | Some _ => mulm sm2_p (get_x P) (mulm sm2_p z z) end.
+  Definition jac_Y (P : pt) (z : Z) : Z :=
+    match P with None => 1 | Some _ => mulm sm2_p (get_y P) (mulm sm2_p z (mulm sm2_p z z)) end.
+  Definition jac_Z (P : pt) (z : Z) : Z := match P with None => 0 | Some _ => z mod sm2_p end.
+  Definition fast_pre_slot (ks zs zinv : list Z) (i : nat) : Z * Z :=
+    let k := nth i ks 0 in
+    let zi := nth i zinv 0 in
+    let z2 := mulm sm2_p zi zi in
+    (k, red_n (mulm sm2_p (jac_X (sm2_mulG NO k) (nth i zs 1)) z2)).
+  Definition fast_pre_compute (zs : list Z) (en : ent) : option (list (Z * Z) * ent) :=
+    match draw_ks 32 en with
+    | None => None
+    | Some (ks, en') =>
+      let Zs := map (fun i => jac_Z (sm2_mulG NO (nth i ks 0)) (nth i zs 1)) (seq 0 32) in
+      let zinv := batch_inv sm2_p inv_p Zs in
+      Some (map (fast_pre_slot ks zs zinv) (seq 0 32), en')
+    end.
 
   (* sm2_fast_sign (as repaired by 05ab786): returns 0 (None) for a nonce that gives r = 0,
      (k + r) mod n = 0 (i.e. r + k = n) or s = 0, so that the caller takes another one *)
